@@ -21,7 +21,8 @@ def run(prop, gi, g, tier, known, do_replay):
             return dict(violations=[], inconclusive=[f"harness generation failed: {ex}"], known=[], samples=[],
                         totals=dict(harnesses=0, ok=0, checks=0, passed=0, covers=0, vccs=0, symex=0.0, solver=0.0, prog=0),
                         evidence=dict(engine="kani", crate=g["crate"], error=str(ex)))
-    results, meta = kani.run_group(g["crate"], g["filters"], tag, jobs=g["jobs"], timeout_s=g["timeout_s"],
+    jobs = min(g["jobs"], int(os.environ.get("VERIF_JOBS", g["jobs"]) or g["jobs"]))
+    results, meta = kani.run_group(g["crate"], g["filters"], tag, jobs=jobs, timeout_s=g["timeout_s"],
                                    cbmc_args=g["cbmc_args"], features=g["features"], extra_kani=g["extra_kani"])
     out = dict(violations=[], inconclusive=[], known=[], samples=[],
                totals=dict(harnesses=0, ok=0, checks=0, passed=0, covers=0, vccs=0, symex=0.0, solver=0.0, prog=0))
